@@ -492,7 +492,7 @@ func (l *lexer) scan() {
 			case ast.ContextCSSString:
 				switch c {
 				case '\\':
-					if p+1 < len(l.src) && l.src[p+1] == quote {
+					if p+1 < len(l.src) && (l.src[p+1] == quote || l.src[p+1] == '\\') {
 						p++
 						l.column++
 					}
@@ -545,7 +545,7 @@ func (l *lexer) scan() {
 			case ast.ContextJSString:
 				switch c {
 				case '\\':
-					if p+1 < len(l.src) && l.src[p+1] == quote {
+					if p+1 < len(l.src) && (l.src[p+1] == quote || l.src[p+1] == '\\') {
 						p++
 						l.column++
 					}
@@ -575,7 +575,7 @@ func (l *lexer) scan() {
 			case ast.ContextJSONString:
 				switch c {
 				case '\\':
-					if p+1 < len(l.src) && l.src[p+1] == '"' {
+					if p+1 < len(l.src) && (l.src[p+1] == '"' || l.src[p+1] == '\\') {
 						p++
 						l.column++
 					}
